@@ -39,7 +39,8 @@ func attrValue(rng *Rng, lm uint) *gbig.Int {
 	}
 }
 
-func newSecret(rng *Rng) *gbig.Int { return rng.Bits(255) }
+// secrets fit the smallest toy message length (Lm = 120)
+func newSecret(rng *Rng) *gbig.Int { return rng.Bits(119) }
 
 // makeCredential issues a credential with nattr attributes (excluding the secret).
 func makeCredential(kp *KeyPair, secret *gbig.Int, nattr int, rng *Rng) *gabi.Credential {
@@ -125,6 +126,12 @@ func buildSession(specs []builderSpec, rng *Rng, issig bool) *Session {
 			s.Desc += "U"
 		default:
 			var cred *gabi.Credential
+			if sp.nonrev && sp.key.Pk.Params.Lm < 195 {
+				panic("revocation attributes (195 bits) need Lm >= 195: not with 128-bit toy keys")
+			}
+			if sp.ranges && sp.key.Pk.Params.Lm < 128 {
+				panic("range proofs (l_d = 128) need Lm >= 128: not with 128-bit toy keys")
+			}
 			if sp.nonrev {
 				cred, _ = makeRevCredential(sp.key, sp.secret, sp.nattr, rng)
 			} else {
